@@ -458,13 +458,23 @@ func renderOut(sb *strings.Builder, d map[string]interface{}, html bool) {
 			sb.WriteString(lit)
 		}
 	case "s":
+		if sstr(d["c"]) == "sbad" {
+			// the invalid byte as it is (no validation was asked for): encoding/json cannot spell this text
+			sb.WriteString("\"a\xffb\"")
+			break
+		}
 		sb.WriteString(stdScalar(strLit[sstr(d["c"])][1], html))
 	case "ts":
 		sb.WriteString(stdScalar("mt:"+strLit[sstr(d["c"])][1], html))
 	case "qs":
 		var in strings.Builder
 		renderOut(&in, rec(d["d"]), html)
-		sb.WriteString(stdScalar(in.String(), html))
+		if q := stdScalar(in.String(), html); utf8.ValidString(in.String()) {
+			sb.WriteString(q)
+		} else {
+			// quoting leaves an invalid byte as it is (encoding/json would replace it): quote the valid form and put the byte back
+			sb.WriteString(strings.Replace(stdScalar(strings.ToValidUTF8(in.String(), "\x00BAD\x00"), html), `\u0000BAD\u0000`, "\xff", -1))
+		}
 	case "a":
 		sb.WriteByte('[')
 		for i, e := range seqOf(d["e"]) {
@@ -713,6 +723,9 @@ func emitHandle(in []byte) []byte {
 	if c["detail"] == true && od.log == nil {
 		od.log = []string{}
 	}
+	// for the encoder the class "sbad" is a Go string that really holds an invalid UTF-8 byte (the decoding universe, in its
+	// own worker processes, uses the same name for what such a literal decodes to)
+	strLit["sbad"] = [2]string{"\"a\xffb\"", "a\xffb"}
 	T, V, o, E, RV := rec(c["T"]), rec(c["V"]), rec(c["o"]), rec(c["E"]), rec(c["RV"])
 	top := sstr(c["top"])
 	np := len(programs)
@@ -829,7 +842,11 @@ func emitHandle(in []byte) []byte {
 	if errX == nil && pan == "" && len(res.Bad) == 0 && !malformedExpected {
 		// C04: decoding the text again, with both decoders, gives the value the specification computes
 		if g := sstr(rec(RV["v"])["g"]); g != "none" && g != "" && !wantErr {
+			// (a string holding invalid UTF-8 comes back repaired: the round trip is promised for valid UTF-8 only)
+			keep := strLit["sbad"]
+			strLit["sbad"] = strLit["sbadfix"]
 			want := build(T, rec(RV["v"]))
+			strLit["sbad"] = keep
 			for di := 0; di < 2; di++ {
 				p := reflect.New(rt)
 				var derr error
@@ -860,6 +877,9 @@ func emitHandle(in []byte) []byte {
 			bad(mk("entrypoint_mismatch", string(got), fmt.Sprintf("MarshalToString: %v %s", err, s)))
 		}
 		if ind, err := api.MarshalIndent(mkArg(), "", "  "); true {
+			if !unordered {
+				obsAdd("MarshalIndent", err == nil, string(ind)) // (ordered outputs only: map iteration order is not an observation)
+			}
 			var w bytes.Buffer
 			e2 := json.Indent(&w, got, "", "  ")
 			if err != nil || e2 != nil || !same(ind, w.Bytes()) || (unordered && len(ind) != w.Len()) {
@@ -869,6 +889,9 @@ func emitHandle(in []byte) []byte {
 		{
 			var w bytes.Buffer
 			err := api.NewEncoder(&w).Encode(mkArg())
+			if !unordered {
+				obsAdd("Encoder.Encode", err == nil, w.String())
+			}
 			if err != nil || !strings.HasSuffix(w.String(), "\n") || !same(bytes.TrimSuffix(w.Bytes(), []byte("\n")), got) {
 				bad(mk("entrypoint_mismatch", string(got)+"\\n", fmt.Sprintf("Encoder.Encode: %v %q", err, w.String())))
 			}
